@@ -288,16 +288,19 @@ func (r *Run) solve() error {
 				}
 				o.File = fn
 				if o.Kind == "vacuity" {
-					// must NOT be unsat
-					sem <- struct{}{}
-					sr := runSolver(nil2ctx(), solvers[0], fn, 3)
-					<-sem
-					o.Solver, o.Seconds = sr.Solver, sr.Seconds
-					if sr.Status == "unsat" {
-						o.Status = "vacuous"
-						o.Output = "hypotheses are contradictory"
-					} else {
-						o.Status = "ok"
+					// must NOT be unsat for any solver (a contradiction found by one
+					// solver only is still a contradiction)
+					o.Status = "ok"
+					for _, sp := range []solverSpec{solvers[0], solvers[2]} {
+						sem <- struct{}{}
+						sr := runSolver(nil2ctx(), sp, fn, 3)
+						<-sem
+						o.Solver, o.Seconds = sr.Solver, o.Seconds+sr.Seconds
+						if sr.Status == "unsat" {
+							o.Status = "vacuous"
+							o.Output = "hypotheses are contradictory (" + sp.name + ")"
+							break
+						}
 					}
 					return
 				}
